@@ -15,17 +15,32 @@ type fnSummary struct {
 	result *sym.Term
 	paths  int
 	failed bool
+	why    string
 }
 
-func (e *Exec) summaryFor(fn *ssa.Function) *fnSummary {
-	if s, ok := e.sums[fn]; ok {
+// effWidth is the number of low bits of t that can be non-zero (from the cheap unsigned range analysis).
+func (e *Exec) effWidth(t *sym.Term) int {
+	_, max := e.tb.URange(t)
+	w := max.BitLen()
+	if w == 0 {
+		w = 1
+	}
+	if w > t.W {
+		w = t.W
+	}
+	return w
+}
+
+func (e *Exec) summaryFor(fn *ssa.Function, widths []int) *fnSummary {
+	key := fmt.Sprint(fn.String(), widths)
+	if s, ok := e.sums[key]; ok {
 		return s
 	}
 	s := &fnSummary{}
 	if e.sums == nil {
-		e.sums = map[*ssa.Function]*fnSummary{}
+		e.sums = map[string]*fnSummary{}
 	}
-	e.sums[fn] = s
+	e.sums[key] = s
 	sig := fn.Signature
 	if sig.Results().Len() != 1 || widthOf(sig.Results().At(0).Type()) < 0 {
 		s.failed = true
@@ -38,9 +53,14 @@ func (e *Exec) summaryFor(fn *ssa.Function) *fnSummary {
 			s.failed = true
 			return s
 		}
-		v := e.tb.Var(fmt.Sprintf("sum!%s!%d", fn.Name(), i), w)
+		ew := w
+		if i < len(widths) && widths[i] < w {
+			ew = widths[i]
+		}
+		// the parameter ranges over the values the actual argument can take: ew low bits, zero above
+		v := e.tb.Var(fmt.Sprintf("sum!%s!%d!%d", fn.Name(), i, ew), ew)
 		s.params = append(s.params, v)
-		args = append(args, v)
+		args = append(args, e.tb.ZExt(v, w))
 	}
 	sub := &Exec{tb: e.tb, prog: e.prog, cfg: &Config{Unwind: 200, MaxSteps: 200000, MaxPaths: 2000, MaxDepth: 30, ConcMax: 64, TimeoutMs: e.cfg.TimeoutMs, Abstract: map[string]string{}},
 		rep: newReport(), qcache: map[string]qres{}, globals: e.globals, inited: e.inited, harness: e.harness,
@@ -71,6 +91,7 @@ func (e *Exec) summaryFor(fn *ssa.Function) *fnSummary {
 			defer func() {
 				if r := recover(); r != nil {
 					ok = false
+					s.why = fmt.Sprint(r)
 				}
 			}()
 			ret = sub.callFunction(fn, args, nil)
@@ -78,6 +99,9 @@ func (e *Exec) summaryFor(fn *ssa.Function) *fnSummary {
 		}()
 		if !ok || len(sub.rep.Obls) > 0 {
 			s.failed = true
+			if s.why == "" {
+				s.why = fmt.Sprintf("callee has run-time obligations (%d)", len(sub.rep.Obls))
+			}
 			return s
 		}
 		t, isTerm := ret.(*sym.Term)
@@ -102,8 +126,17 @@ func (e *Exec) summaryFor(fn *ssa.Function) *fnSummary {
 
 // trySummary returns the summarised result of fn(args) or nil when no summary applies.
 func (e *Exec) trySummary(fn *ssa.Function, args []Value) Value {
-	s := e.summaryFor(fn)
+	var widths []int
+	for _, a := range args {
+		t, ok := a.(*sym.Term)
+		if !ok || t.W == 0 {
+			return nil
+		}
+		widths = append(widths, e.effWidth(t))
+	}
+	s := e.summaryFor(fn, widths)
 	if s.failed {
+		e.rep.Stubs["summary of "+fn.String()+" NOT applicable: "+s.why]++
 		return nil
 	}
 	m := map[int]*sym.Term{}
@@ -112,7 +145,7 @@ func (e *Exec) trySummary(fn *ssa.Function, args []Value) Value {
 		if !ok {
 			return nil
 		}
-		m[p.ID] = t
+		m[p.ID] = e.tb.Extract(t, p.W-1, 0)
 	}
 	e.rep.Stubs[fmt.Sprintf("pure-callee summary of %s (%d paths merged into one ite term)", fn.String(), s.paths)]++
 	return e.tb.Subst(s.result, m, map[int]*sym.Term{})
